@@ -14,8 +14,17 @@ SEED = [
     # keys with a history: a deadline carried over by RENAME, a container that got a deadline, re-armed and persisted
     [b"SET", b"kr0", b"5", b"EX", b"1000"], [b"RENAME", b"kr0", b"kv"], [b"RPUSH", b"kw", b"a", b"b"], [b"EXPIRE", b"kw", b"1000"],
     [b"EXPIRE", b"kw", b"2000"], [b"SADD", b"kp", b"a"], [b"EXPIRE", b"kp", b"1000"], [b"PERSIST", b"kp"], [b"RENAME", b"kp", b"kq"],
+    # a stream that exists with no entries (only trimming gets there)
+    [b"XADD", b"k0", b"MAXLEN", b"0", b"1-1", b"f", b"v"],
 ]
-KEYS = [b"ks", b"kl", b"kt", b"kh", b"kz", b"kx", b"ke", b"missing", b"kv", b"kw", b"kq"]
+# read every seeded key once before the vectors, write to every seeded key once after them: whatever a read leaves behind (a lock, a cache)
+# and whatever the vectors did, the server must still take writes on every key
+READS = [[b"GET", b"ks"], [b"LRANGE", b"kl", b"0", b"-1"], [b"SMEMBERS", b"kt"], [b"HGETALL", b"kh"], [b"ZRANGE", b"kz", b"0", b"-1"], [b"XRANGE", b"kx", b"-", b"+"],
+         [b"XRANGE", b"k0", b"-", b"+"], [b"GET", b"kv"], [b"LRANGE", b"kw", b"0", b"-1"], [b"SMEMBERS", b"kq"], [b"TTL", b"kv"], [b"KEYS", b"k*"]]
+WRITES = [[b"APPEND", b"ks", b"1"], [b"RPUSH", b"kl", b"z"], [b"SADD", b"kt", b"z"], [b"HSET", b"kh", b"z", b"1"], [b"ZADD", b"kz", b"9", b"z"],
+          [b"XADD", b"kx", b"9999999999999-1", b"f", b"v"], [b"XADD", b"k0", b"9999999999999-1", b"f", b"v"], [b"APPEND", b"kv", b"1"], [b"RPUSH", b"kw", b"z"],
+          [b"SADD", b"kq", b"z"]]
+KEYS = [b"ks", b"kl", b"kt", b"kh", b"kz", b"kx", b"ke", b"missing", b"kv", b"kw", b"kq", b"k0"]
 ALPHA = [b"", b"0", b"-1", b"1", b"2", b"9223372036854775807", b"-9223372036854775808", b"9223372036854775808", b"abc", b"*", b"[", b"nx", b"xx",
          b"ex", b"px", b"ch", b"incr", b"gt", b"withscores", b"rev", b"limit", b"count", b"~", b"=", b"maxlen", b"minid", b"nomkstream", b"left",
          b"right", b"rank", b"\r\n", b"1.5", b"inf", b"nan", b"-", b"+", b"1-1", b"5-*", b"a", b"f", b"keepttl", b"get", b"lt", b"withvalues",
@@ -65,18 +74,22 @@ def run(R, ctx):
         lines.append("R")
         for s in SEED:
             lines.append(execgen.render(s, [s[1]] + ([s[2]] if s[0] == b"RENAME" else [])))
+        for rd in READS:
+            lines.append(execgen.render(rd, [rd[1]] if rd[0] != b"KEYS" else []))
         chunk = vecs[i:i + per]
         for j, v in enumerate(chunk):
             keys = [a for a in v[1:] if a in KEYS]
             lines.append(execgen.render(v, keys, full=(j == len(chunk) - 1)))
         # the server keeps serving: the same keys and a fresh one still answer
+        for wr in WRITES:
+            lines.append(execgen.render(wr, [wr[1]]))
         lines.append(execgen.render([b"GET", b"ks"], [b"ks"]))
         lines.append(execgen.render([b"SET", b"after", b"1"], [b"after"], full=True))
     execsuite.run_exec_suite(R, ctx, name="crash-enumeration", gens=[(1, execgen.string_cmd)], nprog=(0, 0), corpus="exec_c04",
-                             what="bounded-exhaustive vectors: every registered command (from fact F1) x arity 0-2 exhaustively over 12 first arguments "
-                                  "(one key of each type, an expired key, a missing key, the empty key, a volatile key that was renamed, a volatile container with a re-armed deadline, a persisted and renamed set) x a %d-word adversarial alphabet "
+                             what="bounded-exhaustive vectors: every registered command (from fact F1) x arity 0-2 exhaustively over 13 first arguments "
+                                  "(one key of each type, an expired key, a missing key, the empty key, a volatile key that was renamed, a volatile container with a re-armed deadline, a persisted and renamed set, a stream trimmed to zero entries) x a %d-word adversarial alphabet "
                                   "(numeric extremes, option words of every family, metacharacters, CR/LF, float specials), arities 3-6 sampled; "
-                                  "each program seeds one key of each type, runs 25 vectors and then probes that old and new keys still answer" % len(ALPHA),
+                                  "each program seeds the keys, reads each of them once, runs 25 vectors, then writes to every seeded key and probes that old and new keys still answer" % len(ALPHA),
                              extra_lines=lines, events=True,
                              shards=([1] if R.tier == "quick" else [1, 2, 1024]))   # ShardNum 1: two lock stripes, so distinct keys collide
     R.extra["enumeration"] = dict(commands=len(commands), vectors=len(vecs), alphabet=len(ALPHA), keys=len(KEYS), exhaustive_arity_le=2, exhaustive=False)
